@@ -259,7 +259,7 @@ class Interp:
         self.genv.update(KeyError=KeyError, len=lambda x: len(x), isinstance=_isinstance, str=str, any=lambda it: any(truth(x) for x in it))
         self.state_stmts = []
         for st in self.mod.body:
-            if isinstance(st, ast.FunctionDef) and st.name in ('_pairwise', '_split_field_name', 'rename_field'):
+            if isinstance(st, ast.FunctionDef):      # every module-level function (helpers added next to the kernel are reached through it)
                 self.genv[st.name] = Closure(st, self.genv, self.is_generator(st))
             if isinstance(st, ast.AnnAssign) and isinstance(st.target, ast.Name) and st.target.id == '_CONVERT_FNS':
                 self.genv['_CONVERT_FNS'] = self.ev(st.value, self.genv)
